@@ -334,7 +334,7 @@ int iwafcmp(const char *aptr, int asiz, const char *bptr, int bsiz) {
   const unsigned char *arp = (const unsigned char*) aptr;
   const unsigned char *brp = (const unsigned char*) bptr;
   int alen = asiz, blen = bsiz;
-  int64_t anum = 0, bnum = 0;
+  uint64_t anum = 0, bnum = 0; // unsigned: long digit runs wrap instead of overflowing
   int asign = 1, bsign = 1;
 
   // A part
@@ -352,11 +352,11 @@ int iwafcmp(const char *aptr, int asiz, const char *bptr, int bsiz) {
     if ((c < '0') || (c > '9')) {
       break;
     }
-    anum = anum * 10 + c - '0';
+    anum = anum * 10 + (uint64_t) (c - '0');
     arp++;
     alen--;
   }
-  anum *= asign;
+  const int64_t aint = (int64_t) (asign < 0 ? 0 - anum : anum);
 
   // B part
   while (blen > 0 && (*brp <= ' ' || *brp == 0x7f)) {
@@ -373,15 +373,15 @@ int iwafcmp(const char *aptr, int asiz, const char *bptr, int bsiz) {
     if ((c < '0') || (c > '9')) {
       break;
     }
-    bnum = bnum * 10 + c - '0';
+    bnum = bnum * 10 + (uint64_t) (c - '0');
     brp++;
     blen--;
   }
-  bnum *= bsign;
-  if (anum < bnum) {
+  const int64_t bint = (int64_t) (bsign < 0 ? 0 - bnum : bnum);
+  if (aint < bint) {
     return -1;
   }
-  if (anum > bnum) {
+  if (aint > bint) {
     return 1;
   }
   if (((alen > 1) && (*arp == '.')) || ((blen > 1) && (*brp == '.'))) {
